@@ -26,7 +26,7 @@ func init() {
 		Explain: "Decides structural necessary conditions of the laws: (V) in URLEscape every loop cycle that leaves bytes in place (the copy mark does not move) advances by a constant number of bytes, and each of those bytes has been tested on that path by predicates that — evaluated here for all 256 byte values from the source's own tables and predicate bodies — admit only unreserved ASCII, '%' followed by two hex digits, or bytes that cannot start a UTF-8 sequence; every other cycle moves the copy mark and writes only the pending verbatim range, constant escapes or url.QueryEscape output: so the output has no space, control, quote or angle byte, every kept '%' is a valid triple, and valid UTF-8 comes out as ASCII; (X) Extend/ExtendString store only exclusively owned bucket slices into the derived filter, and Add appends only to a bucket of its own receiver; (T) the pass-through table, the UTF-8 length table and the HTML escape table have exactly the required classes and are never written; (R) every code point decoded from a numeric reference passes the validator (0 and invalid code points become U+FFFD) before it is encoded; (W,B) no util function writes into its argument (= C12-W/B); (E) EscapeHTML replaces every byte that has a table entry (= C03-E). Not decided: idempotence of URLEscape, decoding back to the input, UTF-8 validity of resolver output in general, case folding and whitespace collapsing, set semantics of BytesFilter beyond aliasing.",
 		Trusted: []string{"url.QueryEscape emits only unreserved ASCII, '+' and %XX", "utf8.ValidRune"},
 		Assumes: []string{"none beyond Go semantics"},
-		Rules: []func(*World, *Report){ruleVerbatimBytesSafe, ruleFilterNoAliasing, ruleFilterDerivationComplete, ruleWideGuards, ruleLabelNormalisation, ruleCaseFoldingTable, ruleUtilTables, ruleEscapeTable, ruleValidRune,
+		Rules: []func(*World, *Report){ruleVerbatimBytesSafe, ruleFilterNoAliasing, ruleFilterDerivationComplete, ruleMembershipByBytes, ruleWideGuards, ruleLabelNormalisation, ruleCaseFoldingTable, ruleUtilTables, ruleEscapeTable, ruleValidRune,
 			ruleByteWriteSites, ruleCopyOnWrite, ruleSanitiserLoops},
 	})
 }
@@ -1162,4 +1162,92 @@ func ruleLabelNormalisation(w *World, r *Report) {
 		}
 	}
 	r.Expect("returns of util.ToLinkReference", n, 1)
+}
+
+// ---- C19-M ------------------------------------------------------------------------------------------
+
+// ruleMembershipByBytes: Contains answers true only after comparing the key's bytes with a stored element.
+func ruleMembershipByBytes(w *World, r *Report) {
+	r.Rule("C19-M", "In every module implementation of util.BytesFilter.Contains, each return that can be true is the result of, or is dominated by the true edge of, bytes.Equal (or bytes.Compare == 0, or a string comparison) between the key parameter and a stored element. Hashes and per-position pre-filters may only say 'no': a filter that answers from a hash alone accepts a crafted attribute name that collides with an allowed one.")
+	it := w.Iface("util", "BytesFilter")
+	n := 0
+	for _, t := range w.Implementers(it) {
+		fn := w.MethodOf(t, "Contains")
+		if fn == nil || !w.InModule(fn) || len(fn.Params) != 2 {
+			continue
+		}
+		n++
+		key := typeShort(t) + ".Contains decides by the bytes"
+		keyP := fn.Params[1]
+		isByteCompare := func(v ssa.Value) bool {
+			switch x := v.(type) {
+			case *ssa.Call:
+				cal := x.Common().StaticCallee()
+				if cal == nil {
+					return false
+				}
+				if cal.String() == "bytes.Equal" {
+					for _, a := range x.Common().Args {
+						if stripConv(a) == ssa.Value(keyP) {
+							return true
+						}
+					}
+				}
+			case *ssa.BinOp:
+				if x.Op == token.EQL {
+					// string(b) == string(e), or bytes.Compare(b, e) == 0
+					for _, side := range []ssa.Value{x.X, x.Y} {
+						if cv, ok := side.(*ssa.Convert); ok && cv.X == ssa.Value(keyP) {
+							return true
+						}
+						if c, ok := side.(*ssa.Call); ok {
+							if cal := c.Common().StaticCallee(); cal != nil && cal.String() == "bytes.Compare" {
+								for _, a := range c.Common().Args {
+									if stripConv(a) == ssa.Value(keyP) {
+										return true
+									}
+								}
+							}
+						}
+					}
+				}
+			}
+			return false
+		}
+		bad := ""
+		nTrue := 0
+		for _, b := range fn.Blocks {
+			ret, ok := b.Instrs[len(b.Instrs)-1].(*ssa.Return)
+			if !ok || len(ret.Results) != 1 {
+				continue
+			}
+			for _, leaf := range phiLeaves(ret.Results[0]) {
+				if v, isC := constBool(leaf); isC && !v {
+					continue
+				}
+				nTrue++
+				if isByteCompare(leaf) {
+					continue
+				}
+				dom := false
+				for _, cf := range dominatingConds(b) {
+					if cf.Truth && isByteCompare(cf.If.Cond) {
+						dom = true
+					}
+				}
+				if !dom {
+					bad = w.InstrPos(ret)
+				}
+			}
+		}
+		switch {
+		case nTrue == 0:
+			r.Unknown(key, w.FnPos(fn), "Contains never returns true")
+		case bad != "":
+			r.Bad(key, bad, "Contains can answer true without having compared the key's bytes with a stored element")
+		default:
+			r.OK(key, w.FnPos(fn), fmt.Sprintf("%d true-capable return(s), each behind a byte comparison with the key", nTrue))
+		}
+	}
+	r.Expect("BytesFilter implementations", n, 1)
 }
